@@ -305,10 +305,20 @@ func runC11(c *core.Ctx) {
 			d = wl.Mix(r, corpus)
 		}
 		if i%6 == 4 {
-			unsafe := r.Intn(2) == 0
+			// GFM against its four members under every combination of renderer flags and parser options, interleaved in one
+			// process: instances of one extension set that differ only in their options must not influence each other
 			a, b := gfmA, gfmB
-			a.Unsafe, b.Unsafe = unsafe, unsafe
+			f := r.Intn(8)
+			a.Unsafe, a.XHTML, a.HardWraps = f&1 != 0, f&2 != 0, f&4 != 0
+			if r.Intn(4) == 0 {
+				a.AutoHeadingID, a.Attribute = true, true
+			}
+			b.Unsafe, b.XHTML, b.HardWraps, b.AutoHeadingID, b.Attribute = a.Unsafe, a.XHTML, a.HardWraps, a.AutoHeadingID, a.Attribute
+			if i%5 == 0 {
+				d = append([]byte("- [x] done\n- [ ] todo\n\n| a | b | c |\n|:--|:-:|--:|\n| ~~d~~ | www.e.f | g@h.i |\n\n"), d...)
+			}
 			c11Check(c, pool, "gfm", a, b, d)
+			c.Observe("gfm_equivalence_flag_sets", fmt.Sprint(f))
 			continue
 		}
 		e := c11Exts[r.Intn(len(c11Exts))]
